@@ -87,6 +87,12 @@ def _ctx_of(f, bb, operand):
 def rule_a(ctx, cr):
     n_letters = 0
     for path in RAW_INPUT_FNS:
+        cr.need_fn(path)
+    # plus every other function of the lexer module (helpers a scanner may delegate to)
+    scope = list(RAW_INPUT_FNS) + sorted(
+        p for p in cr.fns if p.startswith("lang::lex::") and "{closure" not in p
+        and p not in RAW_INPUT_FNS)
+    for path in scope:
         f = cr.need_fn(path)
         ctx.touch(f)
         sites = lt.char_consts(f)
